@@ -20,7 +20,8 @@ def gen(rng, dims=None):
     h = {"version": pc.V02, "width": 50, "height": 60, "depth": 0, "components": comps}
     F, P, N = rng.randint(1, 4), rng.randint(1, 2), pc.total_points(h)
     data = np.array([rng.randint(-40, 40) / 4 for _ in range(F * P * N * dims)], dtype=np.float32)
-    conf = np.array([0.0 if rng.random() < 0.35 else 1.0 for _ in range(F * P * N)], dtype=np.float32).reshape(F, P, N)
+    # observed points mostly with confidence 1, some with a tiny one (1e-9, 1e-30: not 0, hence observed)
+    conf = np.array([0.0 if rng.random() < 0.35 else rng.choice([1.0] * 8 + [1e-9, 1e-30, 0.5]) for _ in range(F * P * N)], dtype=np.float32).reshape(F, P, N)
     if rng.random() < 0.3:                               # a whole component missing
         off = 0; k = rng.randrange(len(comps))
         for i, c in enumerate(comps):
@@ -90,6 +91,14 @@ def run(ctx):
             ctx.sample({"shape": list(src[0].shape), "components": sizes, "missing_fraction": float(src[1].mean())})
         def bad(clause, detail, sig=None):
             ctx.violation(clause, info, detail, True, size=src[0].size, signature=dict({"clause": clause}, **(sig or {})))
+        # ---- which points are missing is decided by the confidences alone (exactly 0), before and after every transform
+        if not case.get("extra_mask"):
+            rule = np.repeat((src[2] == 0)[..., None], D, axis=-1)
+            for name, view in (("the pose as built", src), ("flip", arrays(pose.flip(0))), ("matmul", arrays(_P(pose.body).matmul(np.eye(D, dtype=np.float32)))),
+                               ("augment2d", arrays(pose.augment2d(rotation_std=0, shear_std=0, scale_std=0)))):
+                if not np.array_equal(view[1], rule):
+                    bad("a point with a non-zero confidence is missing (or one with confidence 0 is not) after a transform", {"after": name, "confidences": sorted(set(np.asarray(src[2]).reshape(-1).tolist()))[:6]}, {"what": "missing rule"})
+                    break
         # ---- flip
         for axis in range(D):
             fl = arrays(pose.flip(axis))
